@@ -49,15 +49,14 @@ fn run_mode(files: Vec<(String, String)>, bad: &str, bad_text: &str, mode: &str)
         // The diff names the damaged file (every line added); the other files are not in the diff.
         "diff" => librun::run(&Input { files, diff: Some(cli::new_file_diff(bad, bad_text)), ..Default::default() }),
         "diff+glob" => librun::run(&Input { files, diff: Some(cli::new_file_diff(bad, bad_text)), globs: vec!["**".into()], ..Default::default() }),
+        // A path argument that matches none of the files: the file named in the diff is in scope all the same.
+        "diff+other-glob" => librun::run(&Input { files, diff: Some(cli::new_file_diff(bad, bad_text)), globs: vec!["elsewhere/**".into()], ..Default::default() }),
         _ => unreachable!(),
     }
 }
 
 fn check_segs(kit: &'static Kit, file: &str, segs: &[Seg], sink: &Sink) {
     let rendered = c03::render(kit, segs, false);
-    if rendered.tag_sites.is_empty() {
-        return;
-    }
     let input = json!({"grammar": kit.grammar, "file": file, "segs": segs.iter().map(langkit::seg_json).collect::<Vec<_>>()});
     for (si, site) in rendered.tag_sites.iter().enumerate() {
         let tags_in_comment = rendered.tag_sites.iter().filter(|s| s.comment == site.comment).count();
@@ -74,8 +73,8 @@ fn check_segs(kit: &'static Kit, file: &str, segs: &[Seg], sink: &Sink) {
                 // Rotate the modes over the layouts so that every (damage, mode) and every
                 // (layout, mode) pair occurs for every tag, without the full product.
                 let modes: &[&str] = match li {
-                    0 => &["scan", "list", "diff", "diff+glob"],
-                    1 => &["scan", "diff"],
+                    0 => &["scan", "list", "diff", "diff+glob", "diff+other-glob"],
+                    1 => &["scan", "diff", "diff+other-glob"],
                     2 => &["list", "diff+glob"],
                     _ => &["scan", "list"],
                 };
@@ -107,6 +106,33 @@ fn check_segs(kit: &'static Kit, file: &str, segs: &[Seg], sink: &Sink) {
                             sink.fail(format!("C12:panic:{}", first_line(message)), format!("{mode}: panic {message}\n--- {file} ---\n{text}"), input.clone());
                         }
                     }
+                }
+            }
+        }
+    }
+    // Stray tags in a comment of their own, appended to the healthy file: an end tag written with
+    // inner whitespace (its comment holds neither `<block` nor `</block`), and a bare start tag.
+    let form = kit.forms.iter().find(|f| f.kind != langkit::FormKind::Decorated).unwrap_or(&kit.forms[0]);
+    for stray in ["</ block>", "< /block >", "<block>", "</block>"] {
+        let comment = match form.kind {
+            langkit::FormKind::Line => format!("{} {stray}", form.open),
+            langkit::FormKind::Md => format!("\n[//]: # {}{stray}{}\n", form.open, form.close),
+            _ => format!("{} {stray} {}", form.open, form.close),
+        };
+        let at = rendered.text.len() - kit.epilogue.len();
+        let text = format!("{}{comment}\n{}", &rendered.text[..at], &rendered.text[at..]);
+        for mode in ["scan", "list", "diff"] {
+            sink.exec();
+            let outcome = run_mode(vec![(file.to_string(), text.clone())], file, &text, mode);
+            match &outcome {
+                Outcome::Error { stage, message, .. } if *stage == "parse" && message.contains(file) => sink.outcome(format!("{}:{mode}:stray-error", kit.grammar)),
+                other => {
+                    sink.outcome(format!("{}:{mode}:stray-accepted", kit.grammar));
+                    sink.fail(
+                        format!("C12:stray-tag-accepted:{}:{mode}", if stray.contains('/') { "end-tag" } else { "start-tag" }),
+                        format!("{mode}: a comment holding only `{stray}` was appended, which unbalances the file, but the outcome is {}\n--- {file} ---\n{text}", other.to_json()),
+                        input.clone(),
+                    );
                 }
             }
         }
@@ -174,7 +200,7 @@ fn alphabet(kit: &Kit, rich: bool) -> Vec<Seg> {
 }
 
 pub fn run(cfg: &Cfg, sink: &Arc<Sink>) -> Report {
-    let mut report = Report::new("states = well-nested files of the C03 construction space; in every state each single tag is deleted, duplicated, or lost with its comment (three damages), the damaged file is placed alone / first / last / between healthy files and run in scan, list, diff and diff+glob mode through the real code; the run must fail at parsing with an error that names the damaged file; non-trivial = every state holding at least one tag");
+    let mut report = Report::new("states = well-nested files of the C03 construction space; in every state each single tag is deleted, duplicated, or lost with its comment, and a stray tag (end tag with inner whitespace, bare start tag, plain end tag) is appended in a comment of its own; the damaged file is placed alone / first / last / between healthy files and run in scan, list, diff, diff+glob and diff + non-matching glob mode through the real code; the run must fail at parsing with an error that names the damaged file; non-trivial = every state holding at least one tag");
     report.assume("the all-lines-added diff emitter equals git's output (validated against real git on a slice before the search)");
     // Validate the diff emitter against real git.
     for (path, content) in [("x.py", "# <block>\na\n# </block>\n"), ("d/x.rs", "// one line without newline"), ("e.md", "\n\n"), ("sp ace.c", "/* <block> */\n")] {
